@@ -35,6 +35,8 @@ use std::sync::OnceLock;
 
 #[path = "c02_text.rs"]
 pub mod text;
+#[path = "c02_layout.rs"]
+pub mod layout;
 use text::{alphabet_for, Tok};
 
 pub struct C02;
@@ -149,6 +151,19 @@ pub struct LayoutTable {
     pub record_at: usize,
     /// structurally interesting 2-byte aligned positions inside the table (relative)
     pub hot: Vec<u32>,
+    /// located count / offset / format / class / index fields (deep scan)
+    pub anchors: Vec<layout::Anchor>,
+}
+
+/// A string that makes one lookup of the font apply.
+pub struct Probe {
+    /// index into `FontEntry::tables`
+    pub table: u8,
+    pub lookup: u16,
+    pub ty: u16,
+    pub text: String,
+    /// a feature that references the lookup (None: none found)
+    pub feature: Option<u32>,
 }
 
 pub struct FontEntry {
@@ -162,6 +177,7 @@ pub struct FontEntry {
     pub feature_tags: Vec<u32>,
     pub has_gsub_or_gpos: bool,
     pub variable: bool,
+    pub probes: Vec<Probe>,
 }
 
 pub struct FontSet {
@@ -240,6 +256,18 @@ pub fn fonts() -> &'static FontSet {
                 }
             }
         }
+        if trace_enabled() {
+            for g in &groups {
+                for e in g {
+                    let a: Vec<String> = e.tables.iter().map(|t| format!("{}:{}b/{}a/{}a0", String::from_utf8_lossy(&t.tag), t.len, t.anchors.len(), t.anchors.iter().filter(|a| a.depth == 0).count())).collect();
+                    let mut types: std::collections::BTreeMap<(u8, u16), usize> = std::collections::BTreeMap::new();
+                    for p in &e.probes {
+                        *types.entry((p.table, p.ty)).or_default() += 1;
+                    }
+                    trace(format!("C02-FONT {} tables=[{}] probes={} by (table,type)={:?}", e.name, a.join(" "), e.probes.len(), types));
+                }
+            }
+        }
         FontSet { groups, focus_fonts }
     })
 }
@@ -250,6 +278,7 @@ fn make_entry(group: &'static str, name: String, script: [u8; 4], synthetic: boo
     let mut lang_tags = BTreeSet::new();
     let mut feature_tags = BTreeSet::new();
     let mut has = false;
+    let mut deep_scans: Vec<(u8, layout::Scan)> = Vec::new();
     for e in &dir {
         if !LAYOUT_TAGS.iter().any(|t| **t == e.tag) {
             continue;
@@ -259,21 +288,35 @@ fn make_entry(group: &'static str, name: String, script: [u8; 4], synthetic: boo
             Some(b) => b,
             None => continue,
         };
+        let mut anchors = Vec::new();
         let hot = match &e.tag {
             b"GSUB" | b"GPOS" => {
                 has = true;
                 let s = scan_layout(body, &e.tag == b"GPOS");
                 lang_tags.extend(s.lang_tags);
                 feature_tags.extend(s.feature_tags);
+                let deep = layout::scan(body, &e.tag == b"GPOS");
+                anchors = deep.anchors.clone();
+                deep_scans.push((tables.len() as u8, deep));
                 s.hot
             }
-            b"GDEF" => scan_gdef(body),
-            b"kern" => scan_kern(body),
+            b"GDEF" => {
+                let h = scan_gdef(body);
+                anchors = simple_anchors(&h, &[(0, layout::Kind::Value), (2, layout::Kind::Value), (4, layout::Kind::Offset), (6, layout::Kind::Offset), (8, layout::Kind::Offset), (10, layout::Kind::Offset), (12, layout::Kind::Offset)]);
+                h
+            }
+            b"kern" => {
+                let h = scan_kern(body);
+                anchors = simple_anchors(&h, &[(2, layout::Kind::Count), (6, layout::Kind::Count), (8, layout::Kind::Format), (10, layout::Kind::Count)]);
+                h
+            }
             _ => (0..body.len().min(1024) as u32 / 2).map(|i| i * 2).collect(),
         };
         let hot: Vec<u32> = hot.into_iter().filter(|p| (*p as usize) + 2 <= l).collect();
-        tables.push(LayoutTable { tag: e.tag, offset: o, len: l, record_at: e.record_at, hot });
+        anchors.retain(|a| a.off as usize + a.width as usize <= l);
+        tables.push(LayoutTable { tag: e.tag, offset: o, len: l, record_at: e.record_at, hot, anchors });
     }
+    let probes = build_probes(&bytes, &script, &deep_scans);
     Some(FontEntry {
         group,
         name,
@@ -285,7 +328,95 @@ fn make_entry(group: &'static str, name: String, script: [u8; 4], synthetic: boo
         feature_tags: feature_tags.into_iter().collect(),
         has_gsub_or_gpos: has,
         variable: dir.iter().any(|e| &e.tag == b"fvar"),
+        probes,
     })
+}
+
+/// positions found by the simple GDEF / kern scanners, with a kind for the well-known ones
+fn simple_anchors(hot: &[u32], known: &[(u32, layout::Kind)]) -> Vec<layout::Anchor> {
+    hot.iter()
+        .map(|o| layout::Anchor {
+            off: *o,
+            width: 2,
+            kind: known.iter().find(|(k, _)| k == o).map(|(_, k)| *k).unwrap_or(layout::Kind::Value),
+            lookup: 0xFFFF,
+            depth: if known.iter().any(|(k, _)| k == o) { 0 } else { 1 },
+            what: "field",
+        })
+        .collect()
+}
+
+/// Spell the reaching glyph sequences of every lookup as text: glyph -> character through the
+/// font's cmap (independent reader), glyphs without a character through the substitutions that
+/// produce them (ligatures, positional forms), two levels deep.
+fn build_probes(bytes: &[u8], script: &[u8; 4], scans: &[(u8, layout::Scan)]) -> Vec<Probe> {
+    use crate::refmodel::cmap;
+    use std::collections::BTreeMap;
+    let mut rev: BTreeMap<u16, Vec<char>> = BTreeMap::new();
+    if let Some(table) = crate::fontgen::sfnt::find_table(bytes, b"cmap") {
+        if let Some(recs) = cmap::records(table) {
+            if let Some((i, cmap::Enc::Unicode)) = cmap::select(&recs) {
+                if let Some(m) = cmap::subtable(table, recs[i].offset).and_then(|s| s.mappings(300_000)) {
+                    let a = alphabet_for(script);
+                    for (c, g) in m {
+                        if let Some(ch) = char::from_u32(c) {
+                            let preferred = text::in_ranges(a.blocks, c) || c < 0x80;
+                            let e = rev.entry(g).or_insert_with(|| vec![ch]);
+                            let cur_pref = e.len() == 1 && (text::in_ranges(a.blocks, e[0] as u32) || (e[0] as u32) < 0x80);
+                            if preferred && !cur_pref {
+                                *e = vec![ch];
+                            }
+                        }
+                    }
+                }
+            }
+        }
+    }
+    for _ in 0..2 {
+        for (_, scan) in scans {
+            for (out, ins) in &scan.producers {
+                if rev.contains_key(out) || ins.len() > 8 {
+                    continue;
+                }
+                let mut s = Vec::new();
+                let mut ok = true;
+                for g in ins {
+                    match rev.get(g) {
+                        Some(cs) if s.len() + cs.len() <= 12 => s.extend(cs.iter().copied()),
+                        _ => {
+                            ok = false;
+                            break;
+                        }
+                    }
+                }
+                if ok && !s.is_empty() {
+                    rev.insert(*out, s);
+                }
+            }
+        }
+    }
+    let mut probes = Vec::new();
+    for (ti, scan) in scans {
+        for (li, info) in scan.lookups.iter().enumerate() {
+            for seq in &info.seqs {
+                let mut s = String::new();
+                let mut ok = !seq.is_empty();
+                for g in seq {
+                    match rev.get(g) {
+                        Some(cs) => s.extend(cs.iter()),
+                        None => {
+                            ok = false;
+                            break;
+                        }
+                    }
+                }
+                if ok && s.chars().count() <= 24 && probes.len() < 6000 {
+                    probes.push(Probe { table: *ti, lookup: li as u16, ty: info.ty, text: s, feature: info.features.first().copied() });
+                }
+            }
+        }
+    }
+    probes
 }
 
 // ---- independent mini reader of the OpenType layout common table formats: only used to find
@@ -713,6 +844,55 @@ fn mark_base_pos(marks: &[u16], bases: &[u16]) -> Vec<u8> {
     b.into_vec()
 }
 
+/// MarkLigPos format 1, one mark class; `ligs`: (ligature glyph, component count)
+fn mark_lig_pos(marks: &[u16], ligs: &[(u16, u16)]) -> Vec<u8> {
+    let mcov = coverage1(marks);
+    let lcov = coverage1(&ligs.iter().map(|l| l.0).collect::<Vec<u16>>());
+    let mut marr = Buf::new();
+    marr.u16(marks.len() as u16);
+    let mut off = 2 + 4 * marks.len();
+    for _ in marks {
+        marr.u16(0).u16(off as u16);
+        off += 6;
+    }
+    for i in 0..marks.len() {
+        marr.bytes(&anchor(i as i16, 480));
+    }
+    let marr = marr.into_vec();
+    // LigatureArray: count, offsets, LigatureAttach tables (componentCount, anchor offsets, anchors)
+    let mut attaches = Vec::new();
+    for (k, (_, comps)) in ligs.iter().enumerate() {
+        let mut la = Buf::new();
+        la.u16(*comps);
+        let mut off = 2 + 2 * *comps as usize;
+        for _ in 0..*comps {
+            la.u16(off as u16);
+            off += 6;
+        }
+        for c in 0..*comps {
+            la.bytes(&anchor(100 * c as i16 + k as i16, 650));
+        }
+        attaches.push(la.into_vec());
+    }
+    let mut larr = Buf::new();
+    larr.u16(ligs.len() as u16);
+    let mut off = 2 + 2 * ligs.len();
+    for a in &attaches {
+        larr.u16(off as u16);
+        off += a.len();
+    }
+    for a in &attaches {
+        larr.bytes(a);
+    }
+    let larr = larr.into_vec();
+    let h = 12;
+    let mut b = Buf::new();
+    b.u16(1).u16(h as u16).u16((h + mcov.len()) as u16).u16(1);
+    b.u16((h + mcov.len() + lcov.len()) as u16).u16((h + mcov.len() + lcov.len() + marr.len()) as u16);
+    b.bytes(&mcov).bytes(&lcov).bytes(&marr).bytes(&larr);
+    b.into_vec()
+}
+
 /// SinglePos format 1 with a ValueRecord (xPlacement, yPlacement, xAdvance)
 fn single_pos(cov: &[u16], xp: i16, yp: i16, xa: i16) -> Vec<u8> {
     let mut b = Buf::new();
@@ -853,6 +1033,13 @@ fn synthetic_base() -> BasicFont {
     f.cmap.insert(0x25CC, 39);
     f.cmap.insert(0x20, 40);
     f.cmap.insert(0x2F, 41);
+    // ligature glyphs (GDEF class 2) that are encoded directly, as presentation forms are
+    for (i, c) in [0xFB00u32, 0xFB01, 0xFB02, 0xFB03, 0xFB04].iter().enumerate() {
+        f.cmap.insert(*c, 42 + i as u16);
+    }
+    for (i, c) in [0xFEFBu32, 0xFEF7, 0xFDF2].iter().enumerate() {
+        f.cmap.insert(*c, 52 + i as u16);
+    }
     f
 }
 
@@ -910,9 +1097,10 @@ fn synthetic_fonts() -> Vec<(&'static str, [u8; 4], Vec<u8>)> {
             (7, 0, vec![context1(1, &[2, 3], &[(0, 4), (1, 5), (2, 6), (3, 0)])]),
             (7, 0, vec![context1(2, &[3], &[(0, 6), (1, 2), (0, 0)])]),
             (8, 0, vec![chain3(&[&[37, 38]], &[&letters, &[37, 38]], &[], &[(1, 2), (0, 4), (1, 3)])]),
+            (5, 0, vec![mark_lig_pos(&[37, 38], &[(42, 2), (43, 2), (44, 3), (45, 1)])]),
         ];
         let gpos = layout_table(
-            &[(b"curs", vec![0, 1]), (b"mark", vec![2, 4]), (b"mkmk", vec![3]), (b"kern", vec![5, 6, 7]), (b"dist", vec![8, 4])],
+            &[(b"curs", vec![0, 1]), (b"mark", vec![2, 4, 9]), (b"mkmk", vec![3]), (b"kern", vec![5, 6, 7]), (b"dist", vec![8, 4])],
             &lookups,
         );
         f.extra.push((*b"GPOS", gpos));
@@ -957,8 +1145,12 @@ fn synthetic_fonts() -> Vec<(&'static str, [u8; 4], Vec<u8>)> {
             (b"rvrn", vec![1]),
         ];
         f.extra.push((*b"GSUB", layout_table(&feats, &lookups)));
-        let glookups = vec![(4u16, 0u16, vec![mark_base_pos(&[37, 38], &all)]), (3, 0, vec![cursive_pos(&all)])];
-        f.extra.push((*b"GPOS", layout_table(&[(b"abvm", vec![0]), (b"curs", vec![1]), (b"mark", vec![0])], &glookups)));
+        let glookups = vec![
+            (4u16, 0u16, vec![mark_base_pos(&[37, 38], &all)]),
+            (3, 0, vec![cursive_pos(&all)]),
+            (5, 0, vec![mark_lig_pos(&[37, 38], &[(42, 3), (43, 2), (47, 2)])]),
+        ];
+        f.extra.push((*b"GPOS", layout_table(&[(b"abvm", vec![0, 2]), (b"curs", vec![1]), (b"mark", vec![0, 2])], &glookups)));
         f.extra.push((*b"GDEF", gdef.clone()));
         // variable, so that a tuple can be passed and `rvrn` is applied ahead of the shapers
         let axis = crate::fontgen::var::AxisModel { tag: *b"wght", min: 100 << 16, default: 400 << 16, max: 900 << 16, flags: 0, name_id: 256 };
@@ -1030,9 +1222,10 @@ fn synthetic_fonts() -> Vec<(&'static str, [u8; 4], Vec<u8>)> {
             (3, 1, vec![cursive_pos(&all)]),
             (2, 0, vec![pair_pos(1, &[(2, -50), (3, 70)]), pair_pos(18, &[(37, -30)])]),
             (1, 0, vec![single_pos(&[37, 38], 10, -20, 0)]),
+            (5, 0, vec![mark_lig_pos(&[27, 28, 29, 30, 37, 38], &[(42, 3), (43, 2), (44, 2), (45, 2), (46, 2), (52, 2), (53, 3), (54, 3)])]),
         ];
         let gfeats: Vec<(&[u8; 4], Vec<u16>)> = vec![
-            (b"mark", vec![0]),
+            (b"mark", vec![0, 5]),
             (b"mkmk", vec![1]),
             (b"curs", vec![2]),
             (b"kern", vec![3]),
@@ -1088,6 +1281,11 @@ pub enum FaultKind {
     Zero(u8),
     /// rename the table in the directory (the font then lacks it)
     Hide,
+    /// structural field := boundary value: (anchor selector, value selector) over the located
+    /// count / offset / format / class / index fields of the table
+    Field(u32, u8),
+    /// the same, addressed exactly: (table index, anchor index, value index) (enumeration)
+    FieldExact(u8, u32, u8),
 }
 
 #[derive(Clone, Debug, PartialEq)]
@@ -1154,6 +1352,13 @@ pub struct Case {
     /// draw the text from this alphabet instead of the font's
     pub alphabet: Option<[u8; 4]>,
     pub focus: Option<Focus>,
+    /// use one of the font's lookup-reaching strings: (selector, mode). Mode bit 0: prefer a
+    /// string for the lookup hit by a structural fault; bit 1: put it at the end of the text
+    /// (else at the start); bits 2-3: 0/1 keep features, 2 add the lookup's feature to the mask,
+    /// 3 Features::Custom with the lookup's feature; bit 4: replace the text entirely
+    pub probe: Option<(u32, u8)>,
+    /// exact probe index (enumeration)
+    pub probe_exact: Option<u32>,
 }
 
 const OTHER_SCRIPTS: &[&[u8; 4]] = &[
@@ -1213,6 +1418,7 @@ fn fault_strategy() -> impl Strategy<Value = Fault> {
         2 => any::<u32>().prop_map(FaultKind::Copy16),
         1 => any::<u8>().prop_map(FaultKind::Zero),
         1 => Just(FaultKind::Hide),
+        12 => (any::<u32>(), any::<u8>()).prop_map(|(a, v)| FaultKind::Field(a, v)),
     ];
     (any::<u32>(), 0u8..4, any::<u32>(), kind).prop_map(|(table, mode, pos, kind)| Fault { table, mode, pos, kind })
 }
@@ -1247,12 +1453,13 @@ fn case_strategy(max_toks: usize, max_len: u16) -> impl Strategy<Value = Case> {
         proptest::collection::vec(prop_oneof![Just(0i16), Just(16384), Just(-16384), -16384i16..=16384], 0..5),
     );
     let text = proptest::collection::vec(tok_strategy(), 0..=max_toks);
+    let probe = proptest::option::weighted(0.35, (any::<u32>(), any::<u8>()));
     (
         (any::<u32>(), any::<u32>(), faults, script, any::<bool>(), lang),
         (feats, tuple, any::<bool>(), any::<bool>(), any::<bool>(), proptest::bool::weighted(0.2)),
-        text,
+        (text, probe),
     )
-        .prop_map(move |((group, font, faults, script, tfs, lang), (feats, tuple, kerning, pres, rtl, vertical), text)| Case {
+        .prop_map(move |((group, font, faults, script, tfs, lang), (feats, tuple, kerning, pres, rtl, vertical), (text, probe))| Case {
             direct: None,
             group,
             font,
@@ -1271,6 +1478,9 @@ fn case_strategy(max_toks: usize, max_len: u16) -> impl Strategy<Value = Case> {
             tail: Vec::new(),
             alphabet: None,
             focus: None,
+            // a lookup-reaching string is only meaningful with the font's own script tag
+            probe: probe.map(|(s, m)| (s, if m & 0x60 == 0 { m | 0x10 } else { m & !0x10 })),
+            probe_exact: None,
         })
 }
 
@@ -1372,6 +1582,8 @@ pub fn make_focused(r: FocusRaw, max_len: u16) -> Case {
             _ => Some(*b"latn"),
         },
         focus: Some(focus),
+        probe: None,
+        probe_exact: None,
     }
 }
 
@@ -1443,7 +1655,7 @@ fn u_fault(u: &mut Unstructured) -> arbitrary::Result<Fault> {
     let table = u.arbitrary()?;
     let mode = u.int_in_range(0u8..=3)?;
     let pos = u.arbitrary()?;
-    let kind = match u.int_in_range(0u8..=8)? {
+    let kind = match u.int_in_range(0u8..=12)? {
         0 => FaultKind::Set16(BOUNDARY16[u.int_in_range(0..=BOUNDARY16.len() - 1)?]),
         1 => FaultKind::Set16(u.arbitrary()?),
         2 => FaultKind::Set8(u.arbitrary()?),
@@ -1452,7 +1664,8 @@ fn u_fault(u: &mut Unstructured) -> arbitrary::Result<Fault> {
         5 => FaultKind::Len16(u.int_in_range(-4i8..=4)?),
         6 => FaultKind::Copy16(u.arbitrary()?),
         7 => FaultKind::Zero(u.arbitrary()?),
-        _ => FaultKind::Hide,
+        8 => FaultKind::Hide,
+        _ => FaultKind::Field(u.arbitrary()?, u.arbitrary()?),
     };
     Ok(Fault { table, mode, pos, kind })
 }
@@ -1555,6 +1768,8 @@ pub fn case_from_bytes(data: &[u8]) -> arbitrary::Result<Case> {
         tail: Vec::new(),
         alphabet: None,
         focus: None,
+        probe: if flags & 0x80 != 0 { Some((group ^ font, (flags >> 1) | 1)) } else { None },
+        probe_exact: None,
     })
 }
 
@@ -1573,17 +1788,52 @@ fn w16(data: &mut [u8], at: usize, v: u16) {
 }
 
 /// Apply the faults; returns a description of every byte range actually changed.
-fn apply_faults(entry: &FontEntry, faults: &[Fault], data: &mut Vec<u8>) -> Vec<String> {
+fn apply_faults(entry: &FontEntry, faults: &[Fault], data: &mut Vec<u8>, hit: &mut Vec<(u8, u16)>) -> Vec<String> {
     let mut log = Vec::new();
     if entry.tables.is_empty() {
         return log;
     }
     for f in faults {
-        let t = &entry.tables[pick(entry.tables.len(), f.table)];
+        let ti = match f.kind {
+            FaultKind::FieldExact(t, _, _) => (t as usize).min(entry.tables.len() - 1),
+            _ => pick(entry.tables.len(), f.table),
+        };
+        let t = &entry.tables[ti];
         if t.len < 2 {
             continue;
         }
         let tag = String::from_utf8_lossy(&t.tag).to_string();
+        let field = match f.kind {
+            FaultKind::Field(a, v) if !t.anchors.is_empty() => Some((pick(t.anchors.len(), a), v as usize, a)),
+            FaultKind::FieldExact(_, a, v) if !t.anchors.is_empty() => Some(((a as usize).min(t.anchors.len() - 1), v as usize, a)),
+            _ => None,
+        };
+        if let Some((ai, vi, sel)) = field {
+            let a = &t.anchors[ai];
+            let abs = t.offset + a.off as usize;
+            let w = a.width as usize;
+            if let Some(cur_bytes) = data.get(abs..abs + w) {
+                let cur = cur_bytes.iter().fold(0u32, |acc, b| (acc << 8) | *b as u32);
+                // the value of some other offset field of the same table
+                let offsets: Vec<&layout::Anchor> = t.anchors.iter().filter(|x| x.kind == layout::Kind::Offset && x.width == 2).collect();
+                let other = if offsets.is_empty() {
+                    0
+                } else {
+                    let o = offsets[pick(offsets.len(), sel.rotate_left(13) ^ 0x9e37_79b9)];
+                    let oa = t.offset + o.off as usize;
+                    data.get(oa..oa + 2).map(|b| u16::from_be_bytes([b[0], b[1]]) as u32).unwrap_or(0)
+                };
+                let vals = layout::boundary_values(a.kind, cur, t.len as u32, other, a.width);
+                let v = vals[vi % vals.len()];
+                let be = v.to_be_bytes();
+                data[abs..abs + w].copy_from_slice(&be[4 - w..]);
+                if v != cur {
+                    log.push(format!("{}+{} {} ({:?}, lookup {}): {} -> {}", tag, a.off, a.what, a.kind, a.lookup, cur, v));
+                    hit.push((ti as u8, a.lookup));
+                }
+            }
+            continue;
+        }
         if f.kind == FaultKind::Hide {
             if let Some(b) = data.get_mut(t.record_at) {
                 if b.is_ascii_uppercase() || b.is_ascii_lowercase() {
@@ -1670,9 +1920,10 @@ pub fn check_case(case: &Case, rec: &mut Rec) -> CaseResult {
     // ---- font bytes
     let mut owned: Option<Vec<u8>> = None;
     let mut fault_log = Vec::new();
+    let mut hit_lookups: Vec<(u8, u16)> = Vec::new();
     if !case.faults.is_empty() {
         let mut data = entry.bytes.clone();
-        fault_log = apply_faults(entry, &case.faults, &mut data);
+        fault_log = apply_faults(entry, &case.faults, &mut data, &mut hit_lookups);
         if data != entry.bytes {
             owned = Some(data);
         } else {
@@ -1709,6 +1960,43 @@ pub fn check_case(case: &Case, rec: &mut Rec) -> CaseResult {
     let tail = text::resolve(&case.tail, alphabet, case.max_len as usize);
     let mut chars = text::resolve(&case.text, alphabet, (case.max_len as usize).saturating_sub(tail.len()));
     chars.extend(tail);
+    // lookup-reaching string
+    let mut probe_feature: Option<(u32, u8)> = None;
+    let mut probe_used: Option<&Probe> = None;
+    if !entry.probes.is_empty() {
+        let chosen = if let Some(i) = case.probe_exact {
+            entry.probes.get((i as usize).min(entry.probes.len() - 1))
+        } else if let Some((sel, mode)) = case.probe {
+            let matching: Vec<&Probe> = if mode & 1 != 0 { entry.probes.iter().filter(|p| hit_lookups.iter().any(|(t, l)| *t == p.table && *l == p.lookup)).collect() } else { Vec::new() };
+            if !matching.is_empty() {
+                Some(matching[pick(matching.len(), sel)])
+            } else {
+                Some(&entry.probes[pick(entry.probes.len(), sel)])
+            }
+        } else {
+            None
+        };
+        if let Some(p) = chosen {
+            let mode = case.probe.map(|(_, m)| m).unwrap_or(0x10);
+            let pc: Vec<char> = p.text.chars().collect();
+            if mode & 0x10 != 0 {
+                chars = pc;
+            } else {
+                chars.truncate((case.max_len as usize).saturating_sub(pc.len()));
+                if mode & 2 != 0 {
+                    chars.extend(pc);
+                } else {
+                    let mut v = pc;
+                    v.extend(chars);
+                    chars = v;
+                }
+            }
+            if let Some(f) = p.feature {
+                probe_feature = Some((f, (mode >> 2) & 3));
+            }
+            probe_used = Some(p);
+        }
+    }
     let text: String = chars.iter().collect();
     let lang = match case.lang {
         LangSel::None => None,
@@ -1728,6 +2016,13 @@ pub fn check_case(case: &Case, rec: &mut Rec) -> CaseResult {
                 })
                 .collect(),
         ),
+    };
+    let features = match (probe_feature, features) {
+        (Some((tag, 2)), Features::Mask(m)) => Features::Mask(m | FeatureMask::from_tag(tag)),
+        (Some((tag, 3)), _) => Features::Custom(
+            [*b"ccmp", *b"rlig", *b"liga", *b"calt"].iter().map(|t| tagv(t)).chain(std::iter::once(tag)).map(|t| FeatureInfo { feature_tag: t, alternate: None }).collect(),
+        ),
+        (_, f) => f,
     };
     let presentation = if case.presentation_required { MatchingPresentation::Required } else { MatchingPresentation::NotRequired };
     let direction = if case.rtl { TextDirection::RightToLeft } else { TextDirection::LeftToRight };
@@ -1764,7 +2059,8 @@ pub fn check_case(case: &Case, rec: &mut Rec) -> CaseResult {
             fault_log
         )
     });
-    if trace_enabled() {
+    let traced = trace_enabled() && std::env::var("VERIF_C02_TRACE_GREP").map(|g| fault_log.iter().any(|l| l.contains(&g))).unwrap_or(true);
+    if traced {
         trace(format!(
             "C02-TRACE font={} intact={} faults={:?} text={:?} ({}) script={:?} lang={:?} features={:?} tuple={:?} kerning={} presentation={:?} direction={:?} vertical={}",
             entry.name,
@@ -1830,7 +2126,7 @@ pub fn check_case(case: &Case, rec: &mut Rec) -> CaseResult {
         Err((_e, infos)) => (infos, false),
     };
 
-    if trace_enabled() {
+    if traced {
         trace(format!(
             "C02-TRACE   -> {} {:?}",
             if shaped_ok { "Ok" } else { "Err" },
@@ -1945,6 +2241,12 @@ pub fn check_case(case: &Case, rec: &mut Rec) -> CaseResult {
     if let Some(f) = case.focus {
         rec.class(&format!("focus:{:?}", f));
     }
+    if let Some(p) = probe_used {
+        let t = entry.tables.get(p.table as usize).map(|t| String::from_utf8_lossy(&t.tag).to_string()).unwrap_or_default();
+        rec.class(&format!("probe:{}:type{}", t, p.ty));
+        rec.class_if(hit_lookups.iter().any(|(t, l)| *t == p.table && *l == p.lookup), "probe:matches-faulted-lookup");
+    }
+    rec.class_if(!hit_lookups.is_empty(), "fault:structural-field");
     let has_tag = |t: &[u8; 4]| entry.feature_tags.contains(&tagv(t));
     let mask = match &features {
         Features::Mask(m) => *m,
@@ -2065,11 +2367,102 @@ fn sweep_case(plan: &[SweepItem], n: u32, mut i: u64) -> Option<Case> {
                 tail: Vec::new(),
                 alphabet: None,
                 focus: None,
+                probe: None,
+                probe_exact: None,
             });
         }
         i -= count;
     }
     None
+}
+
+// ---- deterministic enumeration of structural layout fields: for one small font per script
+// ---- group (and every synthetic font) x every located count/offset/format/class/index field
+// ---- x 6 boundary values x 2 strings that reach the lookup the field belongs to
+
+struct FieldItem {
+    group: u16,
+    font: u16,
+    table: u8,
+    anchor: u32,
+    probes: [Option<u32>; 2],
+}
+
+const FIELD_CASES_PER_ANCHOR: u64 = (layout::VALUES_PER_ANCHOR * 2) as u64;
+
+fn field_plan(all_depths: bool) -> Vec<FieldItem> {
+    let set = fonts();
+    let mut plan = Vec::new();
+    for (gi, g) in set.groups.iter().enumerate() {
+        let mut chosen: Vec<usize> = Vec::new();
+        if g.first().map(|e| e.synthetic).unwrap_or(false) {
+            let mut seen_multi = false;
+            for (fi, e) in g.iter().enumerate() {
+                if e.name.starts_with("synthetic/multi-script") {
+                    if seen_multi {
+                        continue;
+                    }
+                    seen_multi = true;
+                }
+                chosen.push(fi);
+            }
+        } else {
+            let cost = |e: &FontEntry| e.tables.iter().map(|t| t.anchors.iter().filter(|a| a.depth == 0).count()).sum::<usize>();
+            if let Some((fi, _)) = g.iter().enumerate().filter(|(_, e)| e.probes.len() >= 4).min_by_key(|(fi, e)| (cost(e), *fi)) {
+                chosen.push(fi);
+            }
+        }
+        for fi in chosen {
+            let e = &g[fi];
+            for (ti, t) in e.tables.iter().enumerate() {
+                for (ai, a) in t.anchors.iter().enumerate() {
+                    if !(all_depths || e.synthetic || a.depth == 0) {
+                        continue;
+                    }
+                    let mut own = e.probes.iter().enumerate().filter(|(_, p)| p.table as usize == ti && p.lookup == a.lookup).map(|(i, _)| i as u32);
+                    let mut probes = [own.next(), own.next()];
+                    if probes[0].is_none() && !e.probes.is_empty() {
+                        // header fields: any two strings of the font (spread over the list)
+                        probes = [Some((ai % e.probes.len()) as u32), Some(((ai * 7 + 3) % e.probes.len()) as u32)];
+                    } else if probes[1].is_none() {
+                        probes[1] = probes[0];
+                    }
+                    plan.push(FieldItem { group: gi as u16, font: fi as u16, table: ti as u8, anchor: ai as u32, probes });
+                }
+            }
+        }
+    }
+    plan
+}
+
+fn field_case(plan: &[FieldItem], i: u64) -> Option<Case> {
+    let item = plan.get((i / FIELD_CASES_PER_ANCHOR) as usize)?;
+    let k = i % FIELD_CASES_PER_ANCHOR;
+    let value = (k / 2) as u8;
+    let variant = (k % 2) as usize;
+    Some(Case {
+        direct: Some((item.group, item.font)),
+        group: 0,
+        font: 0,
+        faults: vec![Fault { table: 0, mode: 0, pos: 0, kind: FaultKind::FieldExact(item.table, item.anchor, value) }],
+        script: ScriptSel::Matching,
+        text_follows_script: false,
+        lang: LangSel::None,
+        feats: FeatSel::Mask(0),
+        tuple: None,
+        kerning: true,
+        presentation_required: false,
+        rtl: variant == 1,
+        vertical: false,
+        max_len: 32,
+        text: vec![Tok::Cons(0), Tok::Halant(0), Tok::Cons(1 << 30), Tok::Mark(0)],
+        tail: Vec::new(),
+        alphabet: None,
+        focus: None,
+        // replace the text by the probe; the second variant also switches the lookup's feature on
+        probe: Some((0, 0x10 | if variant == 1 { 2 << 2 } else { 0 })),
+        probe_exact: item.probes[variant],
+    })
 }
 
 // ---- deterministic fraction sweep
@@ -2133,6 +2526,8 @@ fn fraction_case(plan: &[(u16, u16)], i: u64) -> Case {
         tail: Vec::new(),
         alphabet: None,
         focus: Some(Focus::Frac),
+        probe: None,
+        probe_exact: None,
     }
 }
 
@@ -2147,8 +2542,14 @@ impl Property for C02 {
          normalised tuple for variable fonts, kerning, presentation, direction, vertical); 22 % of the random cases are \
          feature-directed (frac / vert / number-case features / Custom fina / Custom alternates / rvrn+tuple): a font that has \
          the feature, a default-shaper script tag, the mask bit or custom tag set, and a text that feeds the path (ligature-prone \
-         prefix + digits/digits fraction at the end of the run, kana text for vert). Deterministic sweeps: all strings of 3 \
-         (thorough also 4) key characters per script; prefix x fraction x suffix x script x mask on every font with frac. \
+         prefix + digits/digits fraction at the end of the run, kana text for vert). Faults include 'structural field := \
+         boundary value' over the count/offset/format/class/index fields located by an independent deep reader of every \
+         GSUB/GPOS lookup subtable; 35 % of the random cases use a string derived from the font (coverage glyphs, ligature \
+         components, pair seconds, marks after bases/ligatures, contextual input; spelled through cmap and the substitutions \
+         that produce unencoded glyphs) that reaches a lookup, preferably the faulted one. Deterministic sweeps: all strings \
+         of 3 (thorough also 4) key characters per script; prefix x fraction x suffix x script x mask on every font with frac; \
+         layout-fields = one small font per script group and every synthetic font x every located field (quick: header-level \
+         fields of fixtures, all fields of synthetic fonts) x 6 boundary values x 2 reaching strings. \
          Pipeline map_glyphs -> shape -> glyph_positions. Non-trivial: text non-empty, at least one glyph mapped (id != 0), \
          font has GSUB or GPOS. Distinct: hash of (font, applied faults, resolved text, script, language, features, tuple, flags)."
             .to_string()
@@ -2169,6 +2570,15 @@ impl Property for C02 {
         } else {
             ctx.section("shape", n, full_strategy(10, 32), |c, rec| check_case(c, rec));
         }
+        // seed-independent: structural layout fields x boundary values x reaching strings
+        let plan = field_plan(thorough);
+        ctx.enumerate("layout-fields", plan.len() as u64 * FIELD_CASES_PER_ANCHOR, true, |i, rec| match field_case(&plan, i) {
+            Some(c) => {
+                rec.class("sweep");
+                check_case(&c, rec)
+            }
+            None => Ok(()),
+        });
         // seed-independent: prefix x fraction x suffix x script x mask on every font with `frac`
         let fplan = fraction_plan();
         let per_font = fraction_cases_per_font();
